@@ -219,7 +219,9 @@ func runConc(c *runner.Ctx) {
 		c.StateN(res.Execs)
 		c.Done(true, int(res.Steps))
 		c.Outcome("ok")
-		c.Sample(func() interface{} { return map[string]interface{}{"types": names, "same_type": same, "schedules": res.Execs, "mode": c.Mode} })
+		c.Sample(func() interface{} {
+			return map[string]interface{}{"types": names, "same_type": same, "schedules": res.Execs, "mode": c.Mode}
+		})
 	}
 	c.Space(c.Mode + ":2-threads")
 	for i := range menu {
